@@ -1,0 +1,372 @@
+//go:build verif
+
+// Contracts for package list (property C19; the doubly linked list also carries the linked queue and stack of C05/C06).
+// Comment-only file: it is read by /verif/gvc and is never compiled into the library.
+//
+// A list is described by ghost views passed as ghost parameters: seq maps positions 0..n-1 to node objects, idx is its
+// inverse (so the nodes are pairwise distinct and the chain is acyclic), n is the length. Position 0 is always the
+// node embedded by value in the list struct.
+package list
+
+//@ pred slInv(l *SList, seq map[int]*SingleNode, idx map[*SingleNode]int, n int) := l != nil && n >= 1 && seq[0] == &l.SingleNode && forall i int :: { seq[i] } 0 <= i && i < n ==> seq[i] != nil && allocated(seq[i]) && idx[seq[i]] == i && seq[i].next == (i + 1 < n ? seq[i + 1] : nil)
+//@ pred slMember(seq map[int]*SingleNode, idx map[*SingleNode]int, n int, x *SingleNode) := 0 <= idx[x] && idx[x] < n && seq[idx[x]] == x
+//@ pred slSame() := forall x *SingleNode :: { x.Value } { x.next } old(allocated(x)) ==> x.Value == old(x.Value) && x.next == old(x.next)
+
+//@ func list.newNode
+//@   property C19
+//@   ensures result != nil && fresh(result) && result.Value == value && result.next == nil
+
+//@ func list.Init
+//@   property C19
+//@   ensures result != nil && fresh(result) && result.Value == value && result.next == nil
+
+//@ func (*list.SList).Unshift
+//@   property C19
+//@   ghost-param seq map[int]*SingleNode
+//@   ghost-param idx map[*SingleNode]int
+//@   ghost-param cnt int
+//@   ghost nseq map[int]*SingleNode = seq
+//@   ghost nidx map[*SingleNode]int = idx
+//@   requires slInv(l, seq, idx, cnt)
+//@   modifies l.Value, l.next
+//@   exit-ghost nseq = lambda i int :: (i == 0 ? &l.SingleNode : (i == 1 ? l.next : seq[i - 1]))
+//@   exit-ghost nidx = lambda x *SingleNode :: (x == &l.SingleNode ? 0 : (x == l.next ? 1 : idx[x] + 1))
+//@   ensures slInv(l, nseq, nidx, cnt + 1)
+//@   ensures nseq[0].Value == value && forall i int :: { nseq[i] } 1 <= i && i <= cnt ==> nseq[i].Value == old(seq[i - 1].Value)
+
+//@ func (*list.SList).Find
+//@   property C19
+//@   ghost-param seq map[int]*SingleNode
+//@   ghost-param idx map[*SingleNode]int
+//@   ghost-param cnt int
+//@   requires slInv(l, seq, idx, cnt)
+//@   modifies l.Value, l.next
+//@   ensures slSame()
+//@   ensures result1 <==> (exists i int :: 0 <= i && i < cnt && seq[i].Value == val)
+//@   ensures result1 ==> slMember(seq, idx, cnt, result0) && result0.Value == val && forall i int :: { seq[i] } 0 <= i && i < idx[result0] ==> seq[i].Value != val
+//@   ensures !result1 ==> result0 == nil
+//@ loop 1
+//@   invariant slSame() && (n == nil || slMember(seq, idx, cnt, n)) && forall i int :: { seq[i] } 0 <= i && i < (n == nil ? cnt : idx[n]) ==> seq[i].Value != val
+
+//@ func (*list.SList).Append
+//@   property C19
+//@   ghost-param seq map[int]*SingleNode
+//@   ghost-param idx map[*SingleNode]int
+//@   ghost-param cnt int
+//@   ghost nseq map[int]*SingleNode = seq
+//@   ghost nidx map[*SingleNode]int = idx
+//@   requires slInv(l, seq, idx, cnt)
+//@   modifies l.Value, l.next, seq[cnt - 1].next
+//@   exit-ghost nseq = store(seq, cnt, newNode)
+//@   exit-ghost nidx = store(idx, newNode, cnt)
+//@   ensures slInv(l, nseq, nidx, cnt + 1)
+//@   ensures nseq[cnt].Value == value && forall i int :: { seq[i] } 0 <= i && i < cnt ==> nseq[i] == seq[i] && seq[i].Value == old(seq[i].Value)
+//@ loop 1
+//@   invariant slSame() && slMember(seq, idx, cnt, head) && fresh(newNode) && newNode.Value == value
+
+//@ func (*list.SList).InsertAfter
+//@   property C19
+//@   ghost-param seq map[int]*SingleNode
+//@   ghost-param idx map[*SingleNode]int
+//@   ghost-param cnt int
+//@   ghost nseq map[int]*SingleNode = seq
+//@   ghost nidx map[*SingleNode]int = idx
+//@   requires slInv(l, seq, idx, cnt) && (prev == nil || slMember(seq, idx, cnt, prev))
+//@   modifies l.Value, l.next, prev.next
+//@   ghost-at newNode#1: nseq = lambda i int :: (i <= idx[prev] ? seq[i] : (i == idx[prev] + 1 ? $ret : seq[i - 1]))
+//@   ghost-at newNode#1: nidx = lambda x *SingleNode :: (x == $ret ? idx[prev] + 1 : (idx[x] <= idx[prev] ? idx[x] : idx[x] + 1))
+//@   ensures prev == nil ==> result != nil && slSame()
+//@   ensures prev != nil ==> result == nil && slInv(l, nseq, nidx, cnt + 1) && nseq[idx[prev] + 1].Value == value
+//@   ensures prev != nil ==> forall i int :: { seq[i] } 0 <= i && i < cnt ==> seq[i].Value == old(seq[i].Value) && nseq[i <= idx[prev] ? i : i + 1] == seq[i]
+//@   call Find#1 ghost seq = seq; idx = idx; cnt = cnt
+
+//@ func (*list.SList).Replace
+//@   property C19
+//@   ghost-param seq map[int]*SingleNode
+//@   ghost-param idx map[*SingleNode]int
+//@   ghost-param cnt int
+//@   ghost j int = 0
+//@   requires slInv(l, seq, idx, cnt)
+//@   modifies all list.SingleNode.Value
+//@   ensures forall x *SingleNode :: { x.next } old(allocated(x)) ==> x.next == old(x.next)
+//@   ensures result == nil <==> (exists i int :: 0 <= i && i < cnt && old(seq[i].Value) == oldVal)
+//@   ensures result != nil ==> slSame()
+//@   ensures result == nil ==> 0 <= j && j < cnt && old(seq[j].Value) == oldVal && seq[j].Value == newVal && (forall i int :: { seq[i] } 0 <= i && i < j ==> old(seq[i].Value) != oldVal) && (forall x *SingleNode :: { x.Value } old(allocated(x)) && x != seq[j] ==> x.Value == old(x.Value))
+//@ loop 1
+//@   ghost j = idx[head]
+//@   invariant slSame() && slMember(seq, idx, cnt, head) && j == idx[head] && forall i int :: { seq[i] } 0 <= i && i < idx[head] ==> seq[i].Value != oldVal
+
+//@ func (*list.SList).Pop
+//@   property C19
+//@   ghost-param seq map[int]*SingleNode
+//@   ghost-param idx map[*SingleNode]int
+//@   ghost-param cnt int
+//@   requires slInv(l, seq, idx, cnt)
+//@   modifies seq[cnt - 2].next
+//@   ensures cnt == 1 ==> slSame()
+//@   ensures cnt >= 2 ==> slInv(l, seq, idx, cnt - 1) && forall i int :: { seq[i] } 0 <= i && i < cnt ==> seq[i].Value == old(seq[i].Value)
+//@   ensures forall x *SingleNode :: { x.Value } { x.next } old(allocated(x)) && (cnt < 2 || x != seq[cnt - 2]) ==> x.Value == old(x.Value) && x.next == old(x.next)
+//@ loop 1
+//@   invariant slSame() && slMember(seq, idx, cnt, tmp) && idx[tmp] <= cnt - 2
+
+//@ func (*list.SList).Shift
+//@   property C19
+//@   ghost-param seq map[int]*SingleNode
+//@   ghost-param idx map[*SingleNode]int
+//@   ghost-param cnt int
+//@   ghost nseq map[int]*SingleNode = seq
+//@   ghost nidx map[*SingleNode]int = idx
+//@   requires slInv(l, seq, idx, cnt)
+//@   modifies l.Value, l.next
+//@   exit-ghost nseq = lambda i int :: (i == 0 ? seq[0] : seq[i + 1])
+//@   exit-ghost nidx = lambda x *SingleNode :: (x == seq[0] ? 0 : idx[x] - 1)
+//@   ensures cnt == 1 ==> slSame()
+//@   ensures cnt >= 2 ==> slInv(l, nseq, nidx, cnt - 1) && forall i int :: { nseq[i] } 0 <= i && i < cnt - 1 ==> nseq[i].Value == old(seq[i + 1].Value)
+
+//@ func (*list.SList).Delete
+//@   property C19
+//@   ghost-param seq map[int]*SingleNode
+//@   ghost-param idx map[*SingleNode]int
+//@   ghost-param cnt int
+//@   ghost nseq map[int]*SingleNode = seq
+//@   ghost nidx map[*SingleNode]int = idx
+//@   requires slInv(l, seq, idx, cnt) && node != nil && slMember(seq, idx, cnt, node)
+//@   modifies all list.SingleNode.Value, all list.SingleNode.next
+//@   exit-ghost nseq = lambda i int :: (i <= idx[node] ? seq[i] : seq[i + 1])
+//@   exit-ghost nidx = lambda x *SingleNode :: (idx[x] <= idx[node] ? idx[x] : idx[x] - 1)
+//@   ensures cnt == 1 ==> result != nil && slSame()
+//@   ensures cnt >= 2 ==> result == nil && slInv(l, nseq, nidx, cnt - 1)
+//@   ensures cnt >= 2 ==> forall i int :: { nseq[i] } 0 <= i && i < cnt - 1 ==> nseq[i].Value == old(seq[i < idx[node] ? i : i + 1].Value)
+//@   call Find#1 ghost seq = seq; idx = idx; cnt = cnt
+//@   call Pop#1 ghost seq = seq; idx = idx; cnt = cnt
+//@ loop 1
+//@   invariant slSame() && slMember(seq, idx, cnt, head) && idx[head] <= idx[node] && idx[node] >= 1 && (idx[head] >= 1 ==> prev.next == head)
+
+//@ func (*list.SList).Each
+//@   property C19
+//@   calllog
+//@   ghost-param seq map[int]*SingleNode
+//@   ghost-param idx map[*SingleNode]int
+//@   ghost-param cnt int
+//@   ghost k int = 0
+//@   requires slInv(l, seq, idx, cnt) && fn != nil
+//@   modifies l.Value, l.next
+//@   ensures slSame()
+//@   ensures logn == old(logn) + cnt
+//@   ensures forall j int :: { seq[j] } 0 <= j && j < cnt ==> logf(old(logn) + j) == fn && loga0(old(logn) + j, l.Value) == old(seq[j].Value)
+//@ loop 1
+//@   ghost k = k + 1
+//@   invariant 0 <= k && k < cnt && logn == old(logn) + k && l.Value == old(seq[k].Value) && l.next == old(seq[k].next)
+//@   invariant forall x *SingleNode :: { x.Value } { x.next } old(allocated(x)) && x != seq[0] ==> x.Value == old(x.Value) && x.next == old(x.next)
+//@   invariant forall j int :: { seq[j] } 0 <= j && j < k ==> logf(old(logn) + j) == fn && loga0(old(logn) + j, l.Value) == old(seq[j].Value)
+
+// ---------------------------------------------------------------- doubly linked list
+
+//@ pred dlInv(l *DList, seq map[int]*DoubleNode, idx map[*DoubleNode]int, n int) := l != nil && n >= 1 && seq[0] == &l.DoubleNode && forall i int :: { seq[i] } 0 <= i && i < n ==> seq[i] != nil && allocated(seq[i]) && idx[seq[i]] == i && seq[i].next == (i + 1 < n ? seq[i + 1] : nil) && seq[i].prev == (i > 0 ? seq[i - 1] : nil)
+//@ pred dlMember(seq map[int]*DoubleNode, idx map[*DoubleNode]int, n int, x *DoubleNode) := 0 <= idx[x] && idx[x] < n && seq[idx[x]] == x
+//@ pred dlSame() := forall x *DoubleNode :: { x.Value } { x.next } { x.prev } old(allocated(x)) ==> x.Value == old(x.Value) && x.next == old(x.next) && x.prev == old(x.prev)
+//@ pred dlVals(seq map[int]*DoubleNode, n int) := forall i int :: { seq[i] } 0 <= i && i < n ==> seq[i].Value == old(seq[i].Value)
+
+//@ func list.newDNode
+//@   property C19 C05 C06
+//@   ensures result != nil && fresh(result) && result.Value == value && result.next == nil && result.prev == nil
+
+//@ func list.InitDList
+//@   property C19 C05 C06
+//@   ensures result != nil && fresh(result) && result.Value == value && result.next == nil && result.prev == nil
+
+//@ func (*list.DList).Unshift
+//@   property C19
+//@   ghost-param seq map[int]*DoubleNode
+//@   ghost-param idx map[*DoubleNode]int
+//@   ghost-param cnt int
+//@   ghost nseq map[int]*DoubleNode = seq
+//@   ghost nidx map[*DoubleNode]int = idx
+//@   requires dlInv(l, seq, idx, cnt)
+//@   modifies l.Value, l.next, l.prev, seq[1].prev
+//@   exit-ghost nseq = lambda i int :: (i == 0 ? &l.DoubleNode : (i == 1 ? l.next : seq[i - 1]))
+//@   exit-ghost nidx = lambda x *DoubleNode :: (x == &l.DoubleNode ? 0 : (x == l.next ? 1 : idx[x] + 1))
+//@   ensures dlInv(l, nseq, nidx, cnt + 1)
+//@   ensures nseq[0].Value == value && forall i int :: { nseq[i] } 1 <= i && i <= cnt ==> nseq[i].Value == old(seq[i - 1].Value)
+
+//@ func (*list.DList).Find
+//@   property C19 C05 C06
+//@   ghost-param seq map[int]*DoubleNode
+//@   ghost-param idx map[*DoubleNode]int
+//@   ghost-param cnt int
+//@   requires dlInv(l, seq, idx, cnt)
+//@   modifies l.Value, l.next, l.prev
+//@   ensures dlSame()
+//@   ensures result1 <==> (exists i int :: 0 <= i && i < cnt && seq[i].Value == val)
+//@   ensures result1 ==> dlMember(seq, idx, cnt, result0) && result0.Value == val && forall i int :: { seq[i] } 0 <= i && i < idx[result0] ==> seq[i].Value != val
+//@   ensures !result1 ==> result0 == nil
+//@ loop 1
+//@   invariant dlSame() && (n == nil || dlMember(seq, idx, cnt, n)) && forall i int :: { seq[i] } 0 <= i && i < (n == nil ? cnt : idx[n]) ==> seq[i].Value != val
+
+//@ func (*list.DList).Append
+//@   property C19 C05 C06
+//@   ghost-param seq map[int]*DoubleNode
+//@   ghost-param idx map[*DoubleNode]int
+//@   ghost-param cnt int
+//@   ghost nseq map[int]*DoubleNode = seq
+//@   ghost nidx map[*DoubleNode]int = idx
+//@   requires dlInv(l, seq, idx, cnt)
+//@   modifies l.Value, l.next, l.prev, seq[cnt - 1].next
+//@   exit-ghost nseq = store(seq, cnt, newNode)
+//@   exit-ghost nidx = store(idx, newNode, cnt)
+//@   ensures dlInv(l, nseq, nidx, cnt + 1)
+//@   ensures nseq[cnt].Value == value && forall i int :: { seq[i] } 0 <= i && i < cnt ==> nseq[i] == seq[i] && seq[i].Value == old(seq[i].Value)
+//@ loop 1
+//@   invariant dlSame() && dlMember(seq, idx, cnt, head) && fresh(newNode) && newNode.Value == value && newNode.next == nil && newNode.prev == nil
+
+//@ func (*list.DList).InsertAfter
+//@   property C19
+//@   ghost-param seq map[int]*DoubleNode
+//@   ghost-param idx map[*DoubleNode]int
+//@   ghost-param cnt int
+//@   ghost nseq map[int]*DoubleNode = seq
+//@   ghost nidx map[*DoubleNode]int = idx
+//@   requires dlInv(l, seq, idx, cnt) && (node == nil || dlMember(seq, idx, cnt, node))
+//@   modifies l.Value, l.next, l.prev, node.next, seq[idx[node] + 1].prev
+//@   ghost-at newDNode#1: nseq = lambda i int :: (i <= idx[node] ? seq[i] : (i == idx[node] + 1 ? $ret : seq[i - 1]))
+//@   ghost-at newDNode#1: nidx = lambda x *DoubleNode :: (x == $ret ? idx[node] + 1 : (idx[x] <= idx[node] ? idx[x] : idx[x] + 1))
+//@   ensures node == nil ==> result != nil && dlSame()
+//@   ensures node != nil ==> result == nil && dlInv(l, nseq, nidx, cnt + 1) && nseq[idx[node] + 1].Value == value
+//@   ensures node != nil ==> forall i int :: { seq[i] } 0 <= i && i < cnt ==> seq[i].Value == old(seq[i].Value) && nseq[i <= idx[node] ? i : i + 1] == seq[i]
+//@   call Find#1 ghost seq = seq; idx = idx; cnt = cnt
+
+//@ func (*list.DList).InsertBefore
+//@   property C19
+//@   ghost-param seq map[int]*DoubleNode
+//@   ghost-param idx map[*DoubleNode]int
+//@   ghost-param cnt int
+//@   ghost nseq map[int]*DoubleNode = seq
+//@   ghost nidx map[*DoubleNode]int = idx
+//@   requires dlInv(l, seq, idx, cnt) && (node == nil || dlMember(seq, idx, cnt, node))
+//@   modifies l.Value, l.next, l.prev, node.prev, seq[idx[node] - 1].next, seq[1].prev
+//@   ghost-at newDNode#1: nseq = lambda i int :: (idx[node] > 0 ? (i < idx[node] ? seq[i] : (i == idx[node] ? $ret : seq[i - 1])) : (i == 0 ? seq[0] : (i == 1 ? &head : seq[i - 1])))
+//@   ghost-at newDNode#1: nidx = lambda x *DoubleNode :: (idx[node] > 0 ? (x == $ret ? idx[node] : (idx[x] < idx[node] ? idx[x] : idx[x] + 1)) : (x == seq[0] ? 0 : (x == &head ? 1 : idx[x] + 1)))
+//@   ensures node == nil ==> result != nil && dlSame()
+//@   ensures node != nil ==> result == nil && nseq[idx[node]].Value == value
+//@   ensures node != nil ==> dlInv(l, nseq, nidx, cnt + 1)
+//@   ensures node != nil ==> forall i int :: { seq[i] } 0 <= i && i < cnt ==> nseq[i < idx[node] ? i : i + 1].Value == old(seq[i].Value)
+//@   call Find#1 ghost seq = seq; idx = idx; cnt = cnt
+
+//@ func (*list.DList).Replace
+//@   property C19
+//@   ghost-param seq map[int]*DoubleNode
+//@   ghost-param idx map[*DoubleNode]int
+//@   ghost-param cnt int
+//@   ghost j int = 0
+//@   requires dlInv(l, seq, idx, cnt)
+//@   modifies all list.DoubleNode.Value
+//@   ensures forall x *DoubleNode :: { x.next } { x.prev } old(allocated(x)) ==> x.next == old(x.next) && x.prev == old(x.prev)
+//@   ensures result == nil <==> (exists i int :: 0 <= i && i < cnt && old(seq[i].Value) == oldVal)
+//@   ensures result != nil ==> dlSame()
+//@   ensures result == nil ==> 0 <= j && j < cnt && old(seq[j].Value) == oldVal && seq[j].Value == newVal && (forall i int :: { seq[i] } 0 <= i && i < j ==> old(seq[i].Value) != oldVal) && (forall x *DoubleNode :: { x.Value } old(allocated(x)) && x != seq[j] ==> x.Value == old(x.Value))
+//@ loop 1
+//@   ghost j = idx[head]
+//@   invariant dlSame() && dlMember(seq, idx, cnt, head) && j == idx[head] && forall i int :: { seq[i] } 0 <= i && i < idx[head] ==> seq[i].Value != oldVal
+
+//@ func (*list.DList).Delete
+//@   property C19
+//@   ghost-param seq map[int]*DoubleNode
+//@   ghost-param idx map[*DoubleNode]int
+//@   ghost-param cnt int
+//@   ghost nseq map[int]*DoubleNode = seq
+//@   ghost nidx map[*DoubleNode]int = idx
+//@   requires dlInv(l, seq, idx, cnt) && node != nil && dlMember(seq, idx, cnt, node)
+//@   requires node == seq[0] || node.Value != seq[0].Value
+//@   modifies all list.DoubleNode.Value, all list.DoubleNode.next, all list.DoubleNode.prev
+//@   exit-ghost nseq = lambda i int :: (i == 0 ? seq[0] : (i < idx[node] ? seq[i] : seq[i + 1]))
+//@   exit-ghost nidx = lambda x *DoubleNode :: (x == seq[0] ? 0 : (idx[x] < idx[node] ? idx[x] : idx[x] - 1))
+//@   ensures cnt == 1 ==> result != nil && dlSame()
+//@   ensures cnt >= 2 ==> result == nil && dlInv(l, nseq, nidx, cnt - 1)
+//@   ensures cnt >= 2 ==> forall i int :: { nseq[i] } 0 <= i && i < cnt - 1 ==> nseq[i].Value == old(seq[i < idx[node] ? i : i + 1].Value)
+//@   call Find#1 ghost seq = seq; idx = idx; cnt = cnt
+
+//@ func (*list.DList).Shift
+//@   property C19 C05
+//@   ghost-param seq map[int]*DoubleNode
+//@   ghost-param idx map[*DoubleNode]int
+//@   ghost-param cnt int
+//@   ghost nseq map[int]*DoubleNode = seq
+//@   ghost nidx map[*DoubleNode]int = idx
+//@   requires dlInv(l, seq, idx, cnt)
+//@   modifies l.Value, l.next, l.prev, seq[2].prev
+//@   exit-ghost nseq = lambda i int :: (i == 0 ? seq[0] : seq[i + 1])
+//@   exit-ghost nidx = lambda x *DoubleNode :: (x == seq[0] ? 0 : idx[x] - 1)
+//@   ensures result != nil && fresh(result) && result.Value == old(seq[0].Value)
+//@   ensures cnt == 1 ==> dlInv(l, seq, idx, 1) && l.Value == zero
+//@   ensures cnt >= 2 ==> dlInv(l, nseq, nidx, cnt - 1) && forall i int :: { nseq[i] } 0 <= i && i < cnt - 1 ==> nseq[i].Value == old(seq[i + 1].Value)
+
+//@ func (*list.DList).Pop
+//@   property C19 C06
+//@   ghost-param seq map[int]*DoubleNode
+//@   ghost-param idx map[*DoubleNode]int
+//@   ghost-param cnt int
+//@   requires dlInv(l, seq, idx, cnt)
+//@   modifies seq[cnt - 2].next
+//@   ensures result != nil && fresh(result)
+//@   ensures cnt == 1 ==> dlSame() && result.Value == zero
+//@   ensures cnt >= 2 ==> dlInv(l, seq, idx, cnt - 1) && dlVals(seq, cnt) && result.Value == old(seq[cnt - 2].Value)
+//@   ensures forall x *DoubleNode :: { x.Value } { x.next } { x.prev } old(allocated(x)) && (cnt < 2 || x != seq[cnt - 2]) ==> x.Value == old(x.Value) && x.next == old(x.next) && x.prev == old(x.prev)
+//@ loop 1
+//@   invariant dlSame()
+//@   invariant dlMember(seq, idx, cnt, tmp) && idx[tmp] <= cnt - 2
+//@   invariant node.Value == tmp.Value
+
+//@ func (*list.DList).First
+//@   property C19 C05
+//@   ghost-param seq map[int]*DoubleNode
+//@   ghost-param idx map[*DoubleNode]int
+//@   ghost-param cnt int
+//@   requires dlInv(l, seq, idx, cnt)
+//@   ensures result == seq[0].Value
+
+//@ func (*list.DList).Last
+//@   property C19 C06
+//@   ghost-param seq map[int]*DoubleNode
+//@   ghost-param idx map[*DoubleNode]int
+//@   ghost-param cnt int
+//@   ghost k int = 0
+//@   requires dlInv(l, seq, idx, cnt)
+//@   modifies l.Value, l.next, l.prev
+//@   ensures dlSame()
+//@   ensures result == seq[cnt - 1].Value
+//@ loop 1
+//@   ghost k = k + 1
+//@   invariant 0 <= k && k < cnt && l.Value == old(seq[k].Value) && l.next == old(seq[k].next)
+//@   invariant forall x *DoubleNode :: { x.Value } { x.next } { x.prev } old(allocated(x)) && x != seq[0] ==> x.Value == old(x.Value) && x.next == old(x.next) && x.prev == old(x.prev)
+
+//@ func (*list.DList).Each
+//@   property C19
+//@   calllog
+//@   ghost-param seq map[int]*DoubleNode
+//@   ghost-param idx map[*DoubleNode]int
+//@   ghost-param cnt int
+//@   ghost k int = 0
+//@   requires dlInv(l, seq, idx, cnt) && fn != nil
+//@   modifies l.Value, l.next, l.prev
+//@   ensures dlSame()
+//@   ensures logn == old(logn) + cnt
+//@   ensures forall j int :: { seq[j] } 0 <= j && j < cnt ==> logf(old(logn) + j) == fn && loga0(old(logn) + j, l.Value) == old(seq[j].Value)
+//@ loop 1
+//@   ghost k = k + 1
+//@   invariant 0 <= k && k < cnt && logn == old(logn) + k && l.Value == old(seq[k].Value) && l.next == old(seq[k].next)
+//@   invariant forall x *DoubleNode :: { x.Value } { x.next } { x.prev } old(allocated(x)) && x != seq[0] ==> x.Value == old(x.Value) && x.next == old(x.next) && x.prev == old(x.prev)
+//@   invariant forall j int :: { seq[j] } 0 <= j && j < k ==> logf(old(logn) + j) == fn && loga0(old(logn) + j, l.Value) == old(seq[j].Value)
+
+//@ func (*list.DList).Val
+//@   property C19 C05 C06
+//@   panics-when node == nil
+//@   ensures result == node.Value
+
+//@ func (*list.DList).Clear
+//@   property C19 C05
+//@   ghost-param seq map[int]*DoubleNode
+//@   ghost-param idx map[*DoubleNode]int
+//@   ghost-param cnt int
+//@   requires dlInv(l, seq, idx, cnt)
+//@   modifies l.next, l.prev
+//@   ensures dlInv(l, seq, idx, 1) && l.Value == old(l.Value)
